@@ -7,6 +7,9 @@ QUICK = [
     ("chunk2-mm", ["chunk2=1", "req=0:3103b5090100", "submit=1", "qq=03", "zz=fe,10", "nn=0", "snn=0", "echofaults=0", "win=03", "buslost=0"]),
     ("bc-mm-escaped", ["req=0:31feb50901a9", "req=1:3103b5090100", "submit=1", "qq=", "nn=1", "snn=0", "echofaults=0"]),
     ("enh-ms", ["enhanced=1", "req=0:3115b5090142", "submit=1", "qq=", "nn=1", "snn=1", "echofaults=0"]),
+    # the adapter reports another symbol than the one ebusd asked it to send / nothing at all, at every position
+    ("enh-echofaults", ["enhanced=1", "req=0:3115b50901a9", "submit=1", "qq=", "nn=0", "snn=0", "echofaults=1"]),
+    ("enh-mm-ctl", ["enhanced=1", "enhctl=1", "req=0:3103b5090100", "submit=1", "qq=", "nn=0", "snn=0", "echofaults=0"]),
 ]
 THOROUGH = QUICK + [
     ("ms-2esc-nn", ["req=0:3115b50902a9aa", "submit=1", "qq=", "nn=0", "snn=2", "data=42,a9,aa"]),
